@@ -194,6 +194,39 @@ def resolve_local(e: Optional[ast.AST], defs: "Defs", depth: int = 0) -> Optiona
     return e
 
 
+def deep_resolve(fn_node: ast.AST, e: ast.AST, max_depth: int = 5) -> ast.AST:
+    """copy of `e` with every local that has exactly one binding replaced by what it is bound to (recursively);
+    `q, r = divmod(a, 8)` binds q to `a // 8` and r to `a % 8`; `x, y = (e1, e2)` element-wise."""
+    import copy as _copy
+    defs = Defs(fn_node)
+
+    class T(ast.NodeTransformer):
+        depth = 0
+
+        def visit_Name(self, n):
+            if not isinstance(n.ctx, ast.Load) or self.depth >= max_depth or n.id in defs.params:
+                return n
+            vs = defs.values(n.id)
+            if len(vs) != 1 or vs[0][1] is None:
+                return n
+            kind, v, st = vs[0]
+            new = None
+            if kind == "assign":
+                new = _copy.deepcopy(v)
+            elif kind.startswith("assign-unpack["):
+                i = int(kind[len("assign-unpack["):-1])
+                if isinstance(v, ast.Call) and dotted(v.func) == "divmod" and len(v.args) == 2 and i in (0, 1):
+                    new = ast.BinOp(left=_copy.deepcopy(v.args[0]), op=ast.FloorDiv() if i == 0 else ast.Mod(), right=_copy.deepcopy(v.args[1]))
+            if new is None:
+                return n
+            self.depth += 1
+            r = self.visit(new)
+            self.depth -= 1
+            return ast.copy_location(r, n)
+
+    return ast.fix_missing_locations(T().visit(_copy.deepcopy(e)))
+
+
 def names_in(e: ast.AST) -> Set[str]:
     return {n.id for n in ast.walk(e) if isinstance(n, ast.Name)}
 
